@@ -7,11 +7,20 @@ An `if` followed by more statements is compiled by pushing the rest into both br
 shape of the generated term follows the control flow of the source.  Every statement or
 expression shape outside the small recognised subset raises (fail closed).  Also regenerates the
 unpacking order `tnr, fpr, fnr, tpr = confusion_matrix(..., labels=unique_labels,
-normalize="true").ravel()` and the returned name of each of the four rate functions."""
+normalize="true").ravel()` and the returned name of each of the four rate functions.
+
+Second output (Gen_ratebodies.v, used by props/C14.v only): the BODIES of the seven metrics as source-shape
+terms over FL.BaseRatesSrc -- for the four rates a record (which arrays feed the label computation, whether
+pos_label / sample_weight / labels are forwarded, the normalize keyword, ravel, the returned cell); for
+selection_rate and mean_prediction a statement tree compiled like the label function (assignments substituted,
+the rest of the function pushed into both branches of an `if`); for count the checked arrays and the measured
+one.  Shapes outside the small recognised language raise (fail closed); recognised-but-different shapes are
+emitted as they are and rejected by the kernel in props/C14.v."""
 import ast
 from pathlib import Path
 
-OUTPUTS = ["Gen_labels.v"]
+OUTPUTS = ["Gen_labels.v", "Gen_ratebodies.v"]
+SRC_MF = "fairlearn/metrics/_metric_frame.py"
 SRC = "fairlearn/metrics/_base_metrics.py"
 INT64_MIN = -9223372036854775808
 
@@ -166,34 +175,230 @@ RATE_FUNCS = ["true_positive_rate", "true_negative_rate", "false_positive_rate",
 CELL = {"tnr": 0, "fpr": 1, "fnr": 2, "tpr": 3}        # meaning of a name
 
 
-def _rate_proj(fn):
-    """Which cell of the row-normalised confusion matrix (ravel order 0..3) the function returns."""
+ARR = {"y_true": "AYTrue", "y_pred": "AYPred"}
+NORM = {"true": "NormTrue", "pred": "NormPred", "all": "NormAll", None: "NormNone"}
+STACKS = ("np.vstack", "np.hstack", "np.concatenate", "np.stack")
+LABEL_FN = "_get_labels_for_confusion_matrix"
+
+
+def _arr(node, fname):
+    if isinstance(node, ast.Name) and node.id in ARR:
+        return ARR[node.id]
+    raise Unsupported(f"{fname}: expected y_true or y_pred, found {ast.unparse(node)[:40]!r}")
+
+
+def _rate_body(fn):
+    """-> (rate_src term, index of the returned cell in the unpacking)"""
     body = _strip_doc(fn.body)
     args = [a.arg for a in fn.args.args]
     if args != ["y_true", "y_pred", "sample_weight", "pos_label"] or fn.args.kwonlyargs or fn.args.vararg \
-            or fn.args.kwarg:
+            or fn.args.kwarg or fn.args.posonlyargs:
         raise Unsupported(f"{fn.name}: unexpected signature {args}")
     if [ast.unparse(d) for d in fn.args.defaults] != ["None", "None"]:
         raise Unsupported(f"{fn.name}: unexpected defaults")
     if len(body) != 3:
         raise Unsupported(f"{fn.name}: expected 3 statements, found {len(body)}")
-    want0 = "unique_labels = _get_labels_for_confusion_matrix(np.vstack((y_true, y_pred)), pos_label)"
-    if ast.unparse(body[0]) != want0:
-        raise Unsupported(f"{fn.name}: first statement is {ast.unparse(body[0])!r}")
+    # 1. <labels> = _get_labels_for_confusion_matrix(<stack of arrays>, <pos_label>)
+    a0 = body[0]
+    if not (isinstance(a0, ast.Assign) and len(a0.targets) == 1 and isinstance(a0.targets[0], ast.Name)
+            and a0.targets[0].id not in args and isinstance(a0.value, ast.Call) and isinstance(a0.value.func, ast.Name)
+            and a0.value.func.id == LABEL_FN and len(a0.value.args) == 2 and not a0.value.keywords):
+        raise Unsupported(f"{fn.name}: first statement is {ast.unparse(a0)[:90]!r}")
+    lname = a0.targets[0].id
+    d, p = a0.value.args
+    if isinstance(d, ast.Call) and ast.unparse(d.func) in STACKS and len(d.args) == 1 and not d.keywords \
+            and isinstance(d.args[0], (ast.Tuple, ast.List)):
+        data = [_arr(e, fn.name) for e in d.args[0].elts]
+    else:
+        data = [_arr(d, fn.name)]
+    if ast.unparse(p) == "pos_label":
+        posf = "true"
+    elif ast.unparse(p) == "None":
+        posf = "false"
+    else:
+        raise Unsupported(f"{fn.name}: second argument of {LABEL_FN} is {ast.unparse(p)[:40]!r}")
+    # 2. c0, c1, c2, c3 = skm.confusion_matrix(A, B, sample_weight=..., labels=..., normalize=...).ravel()
     a = body[1]
     if not (isinstance(a, ast.Assign) and len(a.targets) == 1 and isinstance(a.targets[0], ast.Tuple)
             and all(isinstance(e, ast.Name) for e in a.targets[0].elts) and len(a.targets[0].elts) == 4):
         raise Unsupported(f"{fn.name}: second statement is not a 4-name unpacking")
     names = [e.id for e in a.targets[0].elts]
-    call = ast.unparse(a.value).replace(" ", "").replace("\n", "")
-    want = ("skm.confusion_matrix(y_true,y_pred,sample_weight=sample_weight,labels=unique_labels,"
-            "normalize='true').ravel()")
-    if call != want:
-        raise Unsupported(f"{fn.name}: confusion matrix call is {call!r}")
+    if len(set(names)) != 4 or set(names) & set(args + [lname]):
+        raise Unsupported(f"{fn.name}: unpacked names {names} are not four fresh names")
+    call = a.value
+    ravel = "false"
+    if isinstance(call, ast.Call) and isinstance(call.func, ast.Attribute) and call.func.attr == "ravel" \
+            and not call.args and not call.keywords:
+        ravel, call = "true", call.func.value
+    if not (isinstance(call, ast.Call) and ast.unparse(call.func) == "skm.confusion_matrix" and len(call.args) == 2):
+        raise Unsupported(f"{fn.name}: confusion matrix call is {ast.unparse(a.value)[:90]!r}")
+    cm_true, cm_pred = (_arr(x, fn.name) for x in call.args)
+    kws = {}
+    for k in call.keywords:
+        if k.arg not in ("sample_weight", "labels", "normalize") or k.arg in kws:
+            raise Unsupported(f"{fn.name}: unsupported keyword {k.arg!r} in the confusion matrix call")
+        kws[k.arg] = k.value
+    wf = "false"
+    if "sample_weight" in kws:
+        t = ast.unparse(kws["sample_weight"])
+        if t not in ("sample_weight", "None"):
+            raise Unsupported(f"{fn.name}: sample_weight={t[:40]}")
+        wf = "true" if t == "sample_weight" else "false"
+    lf = "false"
+    if "labels" in kws:
+        if ast.unparse(kws["labels"]) != lname:
+            raise Unsupported(f"{fn.name}: labels={ast.unparse(kws['labels'])[:40]}")
+        lf = "true"
+    nm = None
+    if "normalize" in kws:
+        n = kws["normalize"]
+        if not (isinstance(n, ast.Constant) and (n.value is None or isinstance(n.value, str)) and n.value in NORM):
+            raise Unsupported(f"{fn.name}: normalize={ast.unparse(n)[:40]}")
+        nm = n.value
+    # 3. return one of the unpacked names
     r = body[2]
     if not (isinstance(r, ast.Return) and isinstance(r.value, ast.Name) and r.value.id in names):
         raise Unsupported(f"{fn.name}: does not return one of the unpacked names")
-    return names.index(r.value.id)
+    cell = names.index(r.value.id)
+    term = (f"mk_rate [{'; '.join(data)}] {posf} {cm_true} {cm_pred} {wf} {lf} {NORM[nm]} {ravel} {cell}")
+    return term, cell
+
+
+# ---- selection_rate / mean_prediction: statement trees over BaseRatesSrc.vex / sex / stm ----
+
+SQUEEZE = "_convert_to_ndarray_and_squeeze"
+PARAMS = ("y_true", "y_pred", "sample_weight", "pos_label")
+
+
+def _vex(node, env, given, has_pos):
+    if isinstance(node, ast.Name):
+        if node.id in env:
+            return env[node.id]
+        if node.id == "y_true":
+            return "VYTrue"
+        if node.id == "y_pred":
+            return "VYPred"
+        if node.id == "sample_weight" and given is True:
+            return "VWeight"
+        _bad(node, "unsupported array name (sample_weight outside an `is not None` branch, or unknown)")
+    if isinstance(node, ast.Call) and not node.keywords and len(node.args) == 1:
+        f = ast.unparse(node.func)
+        if f == SQUEEZE:
+            return f"(VSqueeze {_vex(node.args[0], env, given, has_pos)})"
+        if f == "np.ones":
+            a = node.args[0]
+            if isinstance(a, ast.Call) and ast.unparse(a.func) == "len" and len(a.args) == 1 and not a.keywords:
+                return f"(VOnes {_vex(a.args[0], env, given, has_pos)})"
+    if isinstance(node, ast.Compare) and len(node.ops) == 1 and isinstance(node.ops[0], ast.Eq) and has_pos \
+            and ast.unparse(node.comparators[0]) == "pos_label":
+        return f"(VEqPos {_vex(node.left, env, given, has_pos)})"
+    _bad(node, "unsupported array expression")
+
+
+def _sex(node, env, given, has_pos):
+    if isinstance(node, ast.BinOp) and isinstance(node.op, ast.Div):
+        return f"(SDiv {_sex(node.left, env, given, has_pos)} {_sex(node.right, env, given, has_pos)})"
+    if isinstance(node, ast.Call) and not node.keywords:
+        f = ast.unparse(node.func)
+        if f == "np.dot" and len(node.args) == 2:
+            return f"(SDot {_vex(node.args[0], env, given, has_pos)} {_vex(node.args[1], env, given, has_pos)})"
+        if f in ("np.sum", "np.mean") and len(node.args) == 1:
+            return f"({'SSum' if f == 'np.sum' else 'SMean'} {_vex(node.args[0], env, given, has_pos)})"
+        if isinstance(node.func, ast.Attribute) and node.func.attr in ("sum", "mean") and not node.args:
+            return f"({'SSum' if node.func.attr == 'sum' else 'SMean'} {_vex(node.func.value, env, given, has_pos)})"
+    _bad(node, "unsupported scalar expression")
+
+
+def _mblock(stmts, env, given, has_pos):
+    """-> BaseRatesSrc.stm term; `given` = what is known about `sample_weight is not None` on this path"""
+    if not stmts:
+        raise Unsupported("control reaches the end of the function without return / raise")
+    s, rest = stmts[0], stmts[1:]
+    if isinstance(s, ast.Return):
+        if s.value is None:
+            _bad(s, "bare return")
+        return f"(SReturn {_sex(s.value, env, given, has_pos)})"
+    if isinstance(s, ast.Raise):
+        if not (isinstance(s.exc, ast.Call) and isinstance(s.exc.func, ast.Name) and s.exc.func.id == "ValueError"):
+            _bad(s, "raise of something other than ValueError(...)")
+        return "SRaise"
+    if isinstance(s, ast.Assign) and len(s.targets) == 1 and isinstance(s.targets[0], ast.Name):
+        if s.targets[0].id in PARAMS:
+            _bad(s, "a parameter is rebound")
+        return _mblock(rest, {**env, s.targets[0].id: _vex(s.value, env, given, has_pos)}, given, has_pos)
+    if isinstance(s, ast.If):
+        t = ast.unparse(s.test)
+        if t in ("sample_weight is not None", "sample_weight is None"):
+            yes, no = (s.body, s.orelse) if t.endswith("is not None") else (s.orelse, s.body)
+            if given is True:
+                return _mblock(list(yes) + rest, env, given, has_pos)
+            if given is False:
+                return _mblock(list(no) + rest, env, given, has_pos)
+            return (f"(SIfWeight {_mblock(list(yes) + rest, env, True, has_pos)} "
+                    f"{_mblock(list(no) + rest, env, False, has_pos)})")
+        c = s.test
+        if isinstance(c, ast.Compare) and len(c.ops) == 1 and isinstance(c.ops[0], ast.Eq) \
+                and ast.unparse(c.comparators[0]) == "0" and isinstance(c.left, ast.Call) \
+                and ast.unparse(c.left.func) == "len" and len(c.left.args) == 1 and not c.left.keywords:
+            v = _vex(c.left.args[0], env, given, has_pos)
+            return (f"(SIfEmpty {v} {_mblock(list(s.body) + rest, env, given, has_pos)} "
+                    f"{_mblock(list(s.orelse) + rest, env, given, has_pos)})")
+        _bad(s, "unsupported condition")
+    _bad(s, "unsupported statement")
+
+
+def _sig(fn, args, kwonly, defaults, kwdefaults):
+    got = ([a.arg for a in fn.args.args], [a.arg for a in fn.args.kwonlyargs],
+           [ast.unparse(d) for d in fn.args.defaults],
+           [None if d is None else ast.unparse(d) for d in fn.args.kw_defaults])
+    if got != (args, kwonly, defaults, kwdefaults) or fn.args.vararg or fn.args.kwarg or fn.args.posonlyargs:
+        raise Unsupported(f"{fn.name}: unexpected signature {got}")
+
+
+def _count_body(fn):
+    _sig(fn, ["y_true", "y_pred"], [], [], [])
+    body = _strip_doc(fn.body)
+    checked = []
+    if len(body) == 2:
+        c = body[0]
+        if not (isinstance(c, ast.Expr) and isinstance(c.value, ast.Call)
+                and ast.unparse(c.value.func) == "check_consistent_length" and not c.value.keywords
+                and len(c.value.args) == 2):
+            raise Unsupported(f"count: first statement is {ast.unparse(c)[:80]!r}")
+        checked = [_arr(a, "count") for a in c.value.args]
+    elif len(body) != 1:
+        raise Unsupported(f"count: expected 1 or 2 statements, found {len(body)}")
+    r = body[-1]
+    if not (isinstance(r, ast.Return) and isinstance(r.value, ast.Call) and ast.unparse(r.value.func) == "len"
+            and len(r.value.args) == 1 and not r.value.keywords):
+        raise Unsupported(f"count: does not return len(<array>)")
+    return f"mk_count [{'; '.join(checked)}] {_arr(r.value.args[0], 'count')}"
+
+
+def _imports(tree, repo):
+    """the names the bodies rely on are the library functions they are modelled as"""
+    def has(t, pred):
+        return any(pred(n) for n in t.body)
+    ok = (has(tree, lambda n: isinstance(n, ast.Import) and any(a.name == "numpy" and a.asname == "np" for a in n.names))
+          and has(tree, lambda n: isinstance(n, ast.Import)
+                  and any(a.name == "sklearn.metrics" and a.asname == "skm" for a in n.names))
+          and has(tree, lambda n: isinstance(n, ast.ImportFrom) and n.module == "fairlearn.utils._input_manipulations"
+                  and n.level == 0 and any(a.name == SQUEEZE and a.asname is None for a in n.names))
+          and has(tree, lambda n: isinstance(n, ast.ImportFrom) and n.module == "_metric_frame" and n.level == 1
+                  and any(a.name == "check_consistent_length" and a.asname is None for a in n.names)))
+    if not ok:
+        raise Unsupported("imports of np / skm / _convert_to_ndarray_and_squeeze / check_consistent_length changed")
+    for name in ("np", "skm", SQUEEZE, "check_consistent_length", LABEL_FN):
+        binds = [n for n in ast.walk(tree) if (isinstance(n, ast.Name) and n.id == name and isinstance(n.ctx, ast.Store))
+                 or (isinstance(n, (ast.FunctionDef, ast.ClassDef)) and n.name == name)
+                 or (isinstance(n, ast.arg) and n.arg == name)]
+        if len(binds) != (1 if name == LABEL_FN else 0):
+            raise Unsupported(f"{name} is rebound in {SRC}")
+    mf = ast.parse((Path(repo) / SRC_MF).read_text())
+    if not any(isinstance(n, ast.ImportFrom) and n.module == "sklearn.utils" and n.level == 0
+               and any(a.name == "check_consistent_length" and a.asname is None for a in n.names) for n in mf.body) \
+            or any(isinstance(n, ast.FunctionDef) and n.name == "check_consistent_length" for n in ast.walk(mf)):
+        raise Unsupported(f"check_consistent_length in {SRC_MF} is not sklearn.utils.check_consistent_length")
 
 
 def translate(repo: Path):
@@ -214,11 +419,33 @@ def translate(repo: Path):
     for name in RATE_FUNCS:
         if name not in fns:
             raise Unsupported(f"{name} not found")
-        projs.append((name, _rate_proj(fns[name])))
+        projs.append((name,) + _rate_body(fns[name]))
     text = ("(* GENERATED by translators/t_labels.py from " + SRC + " -- do not edit *)\n"
             "From Coq Require Import ZArith List Bool.\nImport ListNotations.\nOpen Scope Z_scope.\n"
             "Definition labels_for_cm (unique_labels : list Z) (pos_label : option Z) : option (list Z) :=\n  "
             + term + ".\n"
             "(* index, in confusion_matrix(...).ravel(), of the value each function returns *)\n"
-            + "".join(f"Definition cell_of_{n} : nat := {k}.\n" for n, k in projs))
-    return {"Gen_labels.v": text}
+            + "".join(f"Definition cell_of_{n} : nat := {k}.\n" for n, _, k in projs))
+    if len([n for n in tree.body if isinstance(n, ast.FunctionDef)]) != len(fns):
+        raise Unsupported("a function is defined twice")
+    _imports(tree, repo)
+    for name in ("selection_rate", "mean_prediction", "count"):
+        if name not in fns:
+            raise Unsupported(f"{name} not found")
+    sel, mean = fns["selection_rate"], fns["mean_prediction"]
+    _sig(sel, ["y_true", "y_pred"], ["pos_label", "sample_weight"], [], ["1", "None"])
+    _sig(mean, ["y_true", "y_pred", "sample_weight"], [], ["None"], [])
+    bodies = ("(* GENERATED by translators/t_labels.py from " + SRC + " -- do not edit *)\n"
+              "From Coq Require Import ZArith List Bool.\nFrom FL Require Import BaseRatesSrc.\n"
+              "Import ListNotations.\n"
+              "(* label data; pos_label forwarded; confusion_matrix arguments; sample_weight forwarded; labels forwarded;\n"
+              "   normalize; ravel; returned cell *)\n"
+              + "".join(f"Definition body_{n} : rate_src :=\n  {t}.\n" for n, t, _ in projs)
+              + "(* selection_rate(y_true, y_pred, *, pos_label=1, sample_weight=None) *)\n"
+              "Definition selection_rate_default_pos_label : Z := 1%Z.\n"
+              f"Definition body_selection_rate : stm :=\n  {_mblock(_strip_doc(sel.body), {}, None, True)}.\n"
+              "(* mean_prediction(y_true, y_pred, sample_weight=None) *)\n"
+              f"Definition body_mean_prediction : stm :=\n  {_mblock(_strip_doc(mean.body), {}, None, False)}.\n"
+              "(* count(y_true, y_pred): checked arrays, measured array *)\n"
+              f"Definition body_count : count_src :=\n  {_count_body(fns['count'])}.\n")
+    return {"Gen_labels.v": text, "Gen_ratebodies.v": bodies}
